@@ -224,6 +224,14 @@ class DuplicateKernel(Transformation):
                     continue
                 # get/create/rename item
                 new_item = self._get_or_create_or_rename_item(child, item_factory, config)
+                # The duplicate is derived from the unchanged source: it inherits the dependency
+                # changes that have been registered for the original in planning mode
+                for key in ('additional_dependencies', 'removed_dependencies'):
+                    if child.plan_data.get(key):
+                        for _item in as_tuple(new_item):
+                            _item.plan_data[key] = tuple(dict.fromkeys(
+                                as_tuple(_item.plan_data.get(key)) + as_tuple(child.plan_data[key])
+                            ))
                 new_items += as_tuple(new_item)
                 # duplicate subgraph?
                 if self.duplicate_subgraph:
